@@ -28,7 +28,7 @@ def bounds():
 def gen_script(r, tier, idx):
     from vlib.man import Phase
 
-    kind = r.choice(["reset-in-connect", "reset-in-connect", "blackout-connected", "lossy", "rferr", "blackout-at-start", "mixed", "reset-anytime", "set-info"])
+    kind = r.choice(["reset-in-connect", "reset-in-connect", "blackout-connected", "lossy", "rferr", "blackout-at-start", "mixed", "reset-anytime", "set-info", "interface-down", "rferr-long"])
     phases, actions = [], []
     if kind == "reset-in-connect":
         # a reset at a 100 ms step of the first connection attempt
@@ -41,11 +41,16 @@ def gen_script(r, tier, idx):
         phases = [Phase("healthy", r.choice([0, 6])), Phase("lossy", r.choice([20, 100, 300]), r.choice([0.2, 0.5, 0.9]))]
     elif kind == "rferr":
         phases = [Phase("healthy", r.choice([0.5, 6, 30])), Phase("rferr", r.choice([2, 30, 200]))]
+    elif kind == "interface-down":
+        phases = [Phase("healthy", r.choice([0, 6, 30])), Phase("down", r.choice([5, 30, 140, 400]))]
+    elif kind == "rferr-long":
+        # long enough for the too-many-RF-errors escalation (more than 50 on one connection)
+        phases = [Phase("healthy", r.choice([6, 30])), Phase("rferr", r.choice([400, 3600]))]
     elif kind == "blackout-at-start":
         phases = [Phase("blackout", r.choice([0.3, 2, 8, 25]))]
     elif kind == "mixed":
         n = r.randrange(2, 6)
-        phases = [Phase(r.choice(["healthy", "lossy", "blackout", "rferr"]), r.choice([0.1, 1, 10, 60, 150]), r.choice([0.3, 0.7])) for _ in range(n)]
+        phases = [Phase(r.choice(["healthy", "lossy", "blackout", "rferr", "down"]), r.choice([0.1, 1, 10, 60, 150]), r.choice([0.3, 0.7])) for _ in range(n)]
         actions = [(r.uniform(0, sum(p.dur for p in phases) + 1), "reset") for _ in range(r.choice([0, 1, 3]))]
     elif kind == "reset-anytime":
         phases = [Phase("healthy", r.choice([10, 60, 130]))]
@@ -232,10 +237,10 @@ def main(tier, seed):
     run.extra["bounds_virtual_seconds"] = {"B_up": up, "B_down": down}
     run.need(run.counters.get("recoveries", 0) > 60, "too few recoveries observed")
     run.need(run.counters.get("long_outages_from_connected", 0) >= 1 or tier == "quick", "no long outage from CONNECTED")
-    for k in ("reset-in-connect", "blackout-connected", "lossy", "rferr", "blackout-at-start", "mixed"):
+    for k in ("reset-in-connect", "blackout-connected", "lossy", "rferr", "blackout-at-start", "mixed", "interface-down", "rferr-long"):
         run.need(k in run.sets.get("script_kinds", set()), f"script kind {k} not exercised")
     return run.finish(
-        rule="fault scripts (reset / set-spa-info at a 100 ms step of the first connection attempt - thorough: every step 0..5.9 s -, blackout while connected from 0.5 to 400 s, lossy 20-90 %, RF-error periods, blackout at start, mixed phase sequences with resets) followed by a healthy network, silent spa-side changes during outages, handlers none/tick/seconds, regimes B/J; one evaluation = one script; distinct = distinct scripts",
+        rule="fault scripts (reset / set-spa-info at a 100 ms step of the first connection attempt - thorough: every step 0..5.9 s -, blackout while connected from 0.5 to 400 s, lossy 20-90 %, RF-error periods (up to 3600 s: past the too-many-RF-errors escalation), interface-down periods (every send fails with an OS error reported through error_received), blackout at start, mixed phase sequences with resets) followed by a healthy network, silent spa-side changes during outages, handlers none/tick/seconds, regimes B/J; one evaluation = one script; distinct = distinct scripts",
         assumptions=["'eventually' is restated as bounded progress: B_up = 2 x (ping period + 3 x (timeout+pause) + 2 x discovery timeout + 10 s), B_down = 2 x (not-responding timeout + 2 x (ping period + timeout + pause)), maxima over both configuration tables, in virtual seconds", "endpoint-creation failures are outside the statement's quantifier"],
     )
 
